@@ -19,6 +19,10 @@ ASSUMPTIONS = [
     "E3/E4: transport.close() is idempotent, afterwards is_closing() is true, no datagram_received call starts and the socket is "
     "released once the loop has cycled; is_closing() is false for an open transport",
     "the event loop cycles between two bridge calls of a history",
+    "E7: a callable handed to loop.call_soon / call_later runs in a later loop iteration, possibly after stop() (so delivery must be "
+    "synchronous inside datagram_received for 'no callback after stop' to follow from E3)",
+    "the induction over the port list that combines the any_ports_* step lemmas into 'for any number of ports' is a meta-argument "
+    "(DESIGN.md 9.6), not machine-checked",
 ]
 BOUNDED_PARTS = ["supplement only: the units methods_ports0..4 and the history units unroll the port loops for 0..4 / 2 ports; the proof for "
                  "any number of ports is carried by the any_ports_* units (one loop iteration from an arbitrary RI state with a symbolic "
